@@ -319,6 +319,36 @@ def _unfitted(r, case):
                 what = f'raised {res.name}' if isinstance(res, zoo.Raised) else f'returned {_sh(res)}'
                 r.violation(f'C19:unfitted:{label.split(":")[0]}:{q}:{res.name if isinstance(res, zoo.Raised) else "returned"}',
                             f'unfitted {label}.{q}(...) {what} instead of raising NotFittedError', case=case)
+    # ... also for an EMPTY batch (zero rows): no shortcut may answer before the fitted check
+    empties = []
+    for c in UNI_CONFIGS:
+        empties.append((f'uni:{":".join(map(str, c))}', lambda c=c: new_model('uni', c),
+                        [(q, (np.array([], dtype=float),)) for q in ('probability_density', 'cumulative_distribution', 'percent_point',
+                                                                      'log_probability_density', 'pdf', 'cdf', 'ppf')] + [('sample', (0,))]))
+    for f in ('clayton', 'gumbel', 'frank'):
+        empties.append((f'biv:{f}', lambda f=f: Bivariate(copula_type=f),
+                        [(q, (np.empty((0, 2)),)) for q in ('probability_density', 'cumulative_distribution', 'partial_derivative',
+                                                            'pdf', 'cdf')] + [('sample', (0,))]))
+    empties.append(('gm', lambda: GaussianMultivariate(),
+                    [(q, (df.iloc[:0],)) for q in ('probability_density', 'cumulative_distribution', 'log_probability_density', 'pdf',
+                                                   'cdf')] + [('cumulative_distribution', (np.empty((0, 2)),)), ('sample', (0,))]))
+    for v in ('center', 'direct', 'regular'):
+        empties.append((f'vine:{v}', lambda v=v: VineCopula(v), [('sample', (0,))]))
+    for label, mk, queries in empties:
+        for q, args in queries:
+            with warnings.catch_warnings():
+                warnings.simplefilter('ignore')
+                m = mk()
+            if not hasattr(m, q):
+                continue
+            res = zoo.attempt(getattr(m, q), *args)
+            r.tr()
+            r.ev()
+            r.state(('unfitted-empty-batch', label, q))
+            if not (isinstance(res, zoo.Raised) and res.name == 'NotFittedError'):
+                what = f'raised {res.name}' if isinstance(res, zoo.Raised) else f'returned {_sh(res)}'
+                r.violation(f'C19:unfitted:{label.split(":")[0]}:{q}:empty-batch:{res.name if isinstance(res, zoo.Raised) else "returned"}',
+                            f'unfitted {label}.{q}(<empty batch>) {what} instead of raising NotFittedError', case=case)
     # a FRESH object whose first fit is refused has never been fitted: it still raises NotFittedError on every query (it
     # must not answer from half-written state). Inputs: constants outside user bounds, NaN, +-inf, empty, text.
     refusable = {'const-outside-bounds': np.full(30, 2500.0), 'const-below-bounds': np.full(12, -350.0),
